@@ -2604,6 +2604,96 @@ example : multFromGrid [((0, 0), "1"), ((1, 0), "2"), ((0, 1), "1")] ["1"] none 
 example : multFromGrid [((0, 0), "1"), ((1, 0), "2"), ((0, 1), "1")] ["1"] (some 5) = none := by decide +kernel
 
 
+/-! ### third-core maps with edge assemblies -/
+
+/-- an edge assembly (120° line, any ring) is legal input: `Core.add` accepts it -/
+theorem edge_cell_accepted (c : Cell) (h : onOverlapLine c = true) : coreAccepts true c = true := by
+  simp [coreAccepts, h]
+
+/-- an edge cell is never inside the first third proper, and its image under the symmetry rotation is (on the 0° line) -/
+theorem edge_cell_duplicates_domain_cell (c : Cell) (h : onOverlapLine c = true) :
+    inFirstThird c = false ∧ inFirstThird (rotMinus120 c) = true := by
+  obtain ⟨i, j⟩ := c
+  simp only [onOverlapLine, Bool.and_eq_true, decide_eq_true_eq] at h
+  constructor
+  · simp only [inFirstThird, Bool.or_eq_false_iff, Bool.and_eq_false_iff, beq_eq_false_iff_ne, decide_eq_false_iff_not]
+    constructor
+    · omega
+    · left; omega
+  · have h1 : 2 * j + (-i - j) > 0 := by omega
+    have h2 : j + 2 * (-i - j) ≥ 0 := by omega
+    simp [inFirstThird, rotMinus120, h1, h2]
+
+/-- **a third-core map with edge assemblies builds, and everything inside the first third stands exactly as specified**:
+when every named location is in the domain or on the overlap line the load succeeds, the cells kept are exactly the named
+ones off the overlap line, in order, with their specifiers; in particular every first-third entry is kept -/
+theorem loadThird_keeps_domain (contents kept : List (Cell × String)) (h : loadThird contents = some kept) :
+    (∀ p ∈ contents, inFirstThird p.1 = true → p ∈ kept) ∧ (∀ p ∈ kept, p ∈ contents ∧ onOverlapLine p.1 = false) := by
+  unfold loadThird at h
+  split at h
+  · simp only [Option.some.injEq] at h
+    subst h
+    constructor
+    · intro p hp hin
+      refine List.mem_filter.mpr ⟨hp, ?_⟩
+      have : onOverlapLine p.1 = false := by
+        obtain ⟨⟨i, j⟩, sp⟩ := p
+        simp only [inFirstThird, Bool.or_eq_true, Bool.and_eq_true, beq_iff_eq, decide_eq_true_eq] at hin
+        simp only [onOverlapLine, Bool.and_eq_false_iff, decide_eq_false_iff_not]
+        omega
+      simp [this]
+    · intro p hp
+      have := List.mem_filter.mp hp
+      exact ⟨this.1, by simpa using this.2⟩
+  · cases h
+
+/-- only locations genuinely outside the first third (and off the overlap line) make the load fail -/
+theorem loadThird_refuses_iff (contents : List (Cell × String)) :
+    loadThird contents = none ↔ ∃ p ∈ contents, inFirstThird p.1 = false ∧ onOverlapLine p.1 = false := by
+  unfold loadThird
+  constructor
+  · intro h
+    split at h
+    · cases h
+    · rename_i hall
+      have hex : ∃ p ∈ contents, coreAccepts true p.1 = false := by
+        have : contents.all (fun p => coreAccepts true p.1) = false := by simpa using hall
+        obtain ⟨p, hp, hq⟩ := List.all_eq_false.mp this
+        exact ⟨p, hp, by simpa using hq⟩
+      obtain ⟨p, hp, hacc⟩ := hex
+      refine ⟨p, hp, ?_⟩
+      simp only [coreAccepts, Bool.not_true, Bool.false_or, Bool.or_eq_false_iff] at hacc
+      exact hacc
+  · rintro ⟨p, hp, h1, h2⟩
+    have : ¬ (contents.all (fun p => coreAccepts true p.1) = true) := by
+      intro hall
+      have := List.all_eq_true.mp hall p hp
+      simp [coreAccepts, h1, h2] at this
+    simp [this]
+
+example : loadThird [((0, 0), "A"), ((2, -1), "B"), ((-1, 2), "B"), ((1, 1), "C")] = some [((0, 0), "A"), ((2, -1), "B"), ((1, 1), "C")] := by
+  decide +kernel
+example : loadThird [((0, 0), "A"), ((-2, 3), "B")] = none := by decide +kernel
+
+/-! ### mass from the input text: custom-isotopics density on a library solid -/
+
+/-- **the component holds the mass the input text describes**, under either height convention: hot density × hot area ×
+height = custom density × cold area × input height (hot heights: exponent 2, the height is not expanded; cold heights:
+exponent 3, the height expands by `1 + dL/L`). -/
+theorem custom_density_mass_is_input_mass (heightsHot : Bool) (custom coldArea h dLL : Rat) (hd : 1 + dLL ≠ 0) :
+    customDensityHot heightsHot custom dLL * hotArea coldArea dLL * hotHeight heightsHot h dLL = custom * coldArea * h := by
+  unfold customDensityHot hotArea hotHeight
+  cases heightsHot <;> simp only [if_true, if_false, Bool.false_eq_true] <;> grind
+
+/-- using the cube with hot input heights loses the fraction `dL/L / (1 + dL/L)` of the mass (why the convention matters) -/
+theorem cube_with_hot_heights_loses_mass (custom coldArea h dLL : Rat) (hd : 1 + dLL ≠ 0) :
+    customDensityHot false custom dLL * hotArea coldArea dLL * hotHeight true h dLL * (1 + dLL) = custom * coldArea * h := by
+  unfold customDensityHot hotArea hotHeight
+  simp only [if_true, if_false, Bool.false_eq_true]; grind
+
+example : customDensityHot true (25/2) (1/100) * hotArea 3 (1/100) * hotHeight true 10 (1/100) = 25/2 * 3 * 10 := by decide +kernel
+example : customDensityHot false (25/2) (1/100) * hotArea 3 (1/100) * hotHeight false 10 (1/100) = 25/2 * 3 * 10 := by decide +kernel
+
 /-! ### declaration order and linked dimensions -/
 
 private theorem comp_unique : ∀ (cs : List Comp), (cs.map (·.name)).Nodup → ∀ a ∈ cs, ∀ b ∈ cs, a.name = b.name → a = b := by
